@@ -669,7 +669,8 @@ fn log_inputs(r: &mut Rng, n: usize, count: usize) -> (Vec<(B, B)>, Vec<B>) {
     let mut v: Vec<(B, B)> = Vec::new();
     let mut xs: Vec<B> = Vec::new();
     let h = gen::pow2(n, 4 * n);
-    let mut bases = vec![gen::small(n, 2), gen::small(n, 3), gen::small(n, 10), gen::small(n, 7), gen::sub1(&h), gen::add1(&h), gen::smax(n), gen::ones(n)];
+    let mut bases = vec![gen::small(n, 2), gen::small(n, 3), gen::small(n, 10), gen::small(n, 7), gen::sub1(&h), gen::add1(&h), gen::smax(n), gen::ones(n),
+        gen::small(n, 4), gen::small(n, 16), gen::pow2(n, 2 * n)];
     bases.push(gen::small(n, 2 + r.below(250)));
     let bad = [gen::zero(n), gen::small(n, 1), gen::negate(&gen::small(n, 2)), gen::smin(n)];
     for b in bases.iter() {
@@ -759,7 +760,7 @@ fn shift_inputs(r: &mut Rng, n: usize, count: usize) -> Vec<(B, i128)> {
 fn npot_inputs(r: &mut Rng, n: usize, count: usize) -> Vec<B> {
     let mut v = vec![gen::zero(n), gen::small(n, 1), gen::small(n, 2), gen::small(n, 3), gen::ones(n), gen::smin(n), gen::add1(&gen::smin(n)), gen::sub1(&gen::smin(n)), gen::smax(n)];
     for k in 0..(8 * n) {
-        if count >= 300 || r.below(6) == 0 {
+        if count >= 300 || r.below(6) == 0 || k % 8 == 7 {
             let p = gen::pow2(n, k);
             v.push(p.clone());
             v.push(gen::sub1(&p));
